@@ -104,6 +104,108 @@ def deep_sheet(r):
     return (HEAD % '') + '<xsl:template match="/">%s</xsl:template></xsl:stylesheet>' % body
 
 
+# ---- hostile attribute values ------------------------------------------------------------------------------
+# Every attribute of every XSLT 1.0 instruction that takes a number, a character, a name, an enumerated
+# word or a language / encoding tag, filled with values its type does not allow (or allows only just):
+# literally, and for attribute value templates also through a top-level parameter.
+V_NUM = ['0', '-0', '-1', '1', '2', '3', '2.5', 'x', '', ' ', '18446744073709551616', '18446744073709551615', '4294967296', '4294967295', '2147483648', '-2147483649', '9' * 40, '1e309', 'NaN', 'Infinity', '0x10', '+3', '3 ', '٣']
+V_CHAR = [',', '.', '', ',,', ' ', '0', '#', ';', "'", ' ', '́', '‰', '\U0001d7ce', '퟿', 'ab', '%', '-', 'E', '٠', 'x' * 300]
+V_ENUM = ['', 'yes', 'no', 'YES', 'true', '1', 'single', 'multiple', 'any', 'Any', 'text', 'number', 'qname:x', 'x:qname', 'ascending', 'descending', 'upper-first', 'lower-first', 'alphabetic', 'traditional', 'xml', 'html', 'HTML', 'xhtml', ' xml ', 'x' * 2000]
+V_NAME = ['', 'a', 'a:b', ':', 'a:', ':b', 'xml', 'xmlns', 'xmlns:a', 'xsl:x', 'x:a', 'nosuch:a', '#default', '1a', 'a b', 'a:b:c', '*', 'é', '\U00010000', 'A' * 5000, '-', 'a.b-c_d', '{', '}}', 'xml:space']
+V_LANG = ['', 'en', 'en-US', 'EN', 'x-klingon', 'de_DE', 'zz', 'a' * 300, '-', 'en-', 'ja', 'el', 'he', 'ka', 'th', 'i-default', 'é']
+V_ENC = ['', 'UTF-8', 'utf-8', 'UTF-16', 'UTF-16BE', 'UTF-32', 'ISO-8859-1', 'US-ASCII', 'windows-1252', 'EBCDIC-CP-US', 'nosuch', 'x' * 500, 'UTF-7', 'utf8', 'ucs-2', 'SHIFT_JIS', 'iso-2022-jp']
+V_FORMAT = ['', '1', '01', '001', 'a', 'A', 'i', 'I', '1.1', '1.a.i', '(1)', '-', '--', ' ', '١', 'あ', 'а', 'α', 'א', 'ა', '๑', '１', '\U0001d7ce', '\U0001d7cf', '0', '00000000000000000000000000000000000000001',
+            '1' * 300, '#', '1,1', 'w', 'W', 'Ww', '一', '壹', 'ア', 'イ', '한', 'x1y', '1' + '.1' * 200]
+V_VALUE = ['0', '1', '-1', '0.4', '0.5', '1.5', '3999', '4000', '1234567', '1e15', '1e19', '1e30', '1e309', '-1e309', '0 div 0', "'x'", '1 div 0', '9007199254740993', '18446744073709551616', '26', '27', '702', '703', '2147483647', '2147483648', '4294967296', '5000000000', '/..', '//*']
+V_PRIO = ['0', '-0.5', '1e309', '-1e309', 'NaN', 'x', '', '1e', '.5', '5.', '+1', '9' * 400, '0.' + '0' * 400 + '1', ' 1 ']
+V_URI = ['', 'urn:x', 'http://www.w3.org/1999/XSL/Transform', 'http://www.w3.org/XML/1998/namespace', 'http://www.w3.org/2000/xmlns/', ' ', 'a b', '{', 'é', 'x' * 3000, '#', '%zz']
+V_NAMES = ['', 'a', 'a b', 'a  b\tc', '*', 'x:*', 'nosuch:*', 'a:b', '#default', 'xsl', 'x', 'x x x', 'nosuch', ' ', 'A' * 3000, '1', 'a|b']
+ATTR_TYPES = {'num': V_NUM, 'char': V_CHAR, 'enum': V_ENUM, 'name': V_NAME, 'lang': V_LANG, 'enc': V_ENC, 'format': V_FORMAT, 'value': V_VALUE, 'prio': V_PRIO, 'uri': V_URI, 'names': V_NAMES}
+# (element, where: 'body' | 'top' | 'sort' | 'lre' | 'root', [(attribute, type, usual value or None, is an AVT)], content)
+INSTRUCTIONS = [
+    ('xsl:number', 'body', [('value', 'value', '1234567', False), ('format', 'format', '1', True), ('lang', 'lang', None, True), ('letter-value', 'enum', None, True), ('grouping-separator', 'char', ',', True), ('grouping-size', 'num', '3', True)], ''),
+    ('xsl:number', 'body', [('level', 'enum', 'any', False), ('count', 'names', None, False), ('from', 'names', None, False), ('format', 'format', '1.a', True), ('grouping-separator', 'char', None, True), ('grouping-size', 'num', None, True)], ''),
+    ('xsl:sort', 'sort', [('select', 'value', '.', False), ('lang', 'lang', None, True), ('data-type', 'enum', 'text', True), ('order', 'enum', None, True), ('case-order', 'enum', None, True)], ''),
+    ('xsl:output', 'top', [('method', 'enum', 'xml', False), ('version', 'num', None, False), ('encoding', 'enc', None, False), ('omit-xml-declaration', 'enum', None, False), ('standalone', 'enum', None, False), ('doctype-public', 'uri', None, False),
+                           ('doctype-system', 'uri', None, False), ('cdata-section-elements', 'names', None, False), ('indent', 'enum', None, False), ('media-type', 'uri', None, False), ('xalan:indent-amount', 'num', None, False)], ''),
+    ('xsl:decimal-format', 'top', [('name', 'name', None, False), ('decimal-separator', 'char', None, False), ('grouping-separator', 'char', None, False), ('infinity', 'format', None, False), ('minus-sign', 'char', None, False), ('NaN', 'format', None, False),
+                                   ('percent', 'char', None, False), ('per-mille', 'char', None, False), ('zero-digit', 'char', None, False), ('digit', 'char', None, False), ('pattern-separator', 'char', None, False)], ''),
+    ('xsl:element', 'body', [('name', 'name', 'e', True), ('namespace', 'uri', None, True), ('use-attribute-sets', 'names', None, False)], 'x'),
+    ('xsl:attribute', 'body', [('name', 'name', 'a', True), ('namespace', 'uri', None, True)], 'v'),
+    ('xsl:processing-instruction', 'body', [('name', 'name', 'p', True)], 'v?>'),
+    ('xsl:template', 'top', [('match', 'names', '*', False), ('priority', 'prio', None, False), ('mode', 'name', None, False), ('name', 'name', None, False)], 'x'),
+    ('xsl:key', 'top', [('name', 'name', 'kk', False), ('match', 'names', '*', False), ('use', 'value', '.', False)], ''),
+    ('xsl:strip-space', 'top', [('elements', 'names', '*', False)], ''),
+    ('xsl:preserve-space', 'top', [('elements', 'names', '*', False)], ''),
+    ('xsl:namespace-alias', 'top', [('stylesheet-prefix', 'name', 'x', False), ('result-prefix', 'name', '#default', False)], ''),
+    ('xsl:attribute-set', 'top', [('name', 'name', 'as', False), ('use-attribute-sets', 'names', None, False)], '<xsl:attribute name="q">1</xsl:attribute>'),
+    ('xsl:apply-templates', 'body', [('select', 'value', '*', False), ('mode', 'name', None, False)], ''),
+    ('xsl:call-template', 'body', [('name', 'name', 'r', False)], ''),
+    ('xsl:message', 'body', [('terminate', 'enum', 'no', False)], 'm'),
+    ('xsl:value-of', 'body', [('select', 'value', '.', False), ('disable-output-escaping', 'enum', None, False)], ''),
+    ('xsl:text', 'body', [('disable-output-escaping', 'enum', None, False)], '&lt;t'),
+    ('xsl:copy', 'body', [('use-attribute-sets', 'names', None, False)], ''),
+    ('xsl:variable', 'body', [('name', 'name', 'vv', False), ('select', 'value', None, False)], ''),
+    ('xsl:with-param', 'call', [('name', 'name', 'n', False), ('select', 'value', None, False)], ''),
+    ('lre', 'body', [('xsl:version', 'num', None, False), ('xsl:use-attribute-sets', 'names', None, False), ('xsl:exclude-result-prefixes', 'names', None, False), ('xsl:extension-element-prefixes', 'names', None, False), ('xml:space', 'enum', None, False), ('xml:lang', 'lang', None, False)], 'x'),
+    ('root', 'root', [('version', 'num', '1.0', False), ('exclude-result-prefixes', 'names', None, False), ('extension-element-prefixes', 'names', None, False), ('id', 'name', None, False), ('xml:space', 'enum', None, False)], ''),
+]
+
+
+def xattr(v):
+    return v.replace('&', '&amp;').replace('<', '&lt;').replace('"', '&quot;').replace('\t', '&#9;').replace('\n', '&#10;')
+
+
+def hostile_attribute_sheet(r):
+    """returns (stylesheet, {parameter: value}, description)"""
+    top, body, sorts, calls, rootattrs, params, desc = [], [], [], [], [], {}, []
+    for _ in range(r.choice([1, 1, 2, 3])):
+        el, where, attrs, content = r.choice(INSTRUCTIONS)
+        hostile = set(r.sample(range(len(attrs)), min(len(attrs), r.choice([1, 1, 2, 3]))))
+        parts = []
+        for i, (an, ty, usual, avt) in enumerate(attrs):
+            if i in hostile:
+                v = r.choice(ATTR_TYPES[ty])
+                if ty == 'value' and el != 'xsl:number' and r.random() < 0.5:
+                    v = hostile_xpath(r)
+                desc.append('%s/@%s=%r' % (el, an, v[:40]))
+                if avt and r.random() < 0.4:
+                    pn = 'hp%d' % len(params)
+                    params[pn] = v
+                    v = '{$%s}' % pn
+                elif avt:
+                    v = v.replace('{', '{{').replace('}', '}}') if r.random() < 0.7 else v
+            elif usual is not None and r.random() < 0.8:
+                v = usual
+            else:
+                continue
+            parts.append('%s="%s"' % (an, xattr(v)))
+        if el == 'xsl:output':
+            # an indentation of 10^6 or more columns is legitimately huge work (an indent amount switches indenting on), not a hostile input;
+            # the conversion of such numbers is driven directly instead (kind integer-conversion)
+            parts = [x for x in parts if not (x.startswith('xalan:indent-amount="') and re.match(r'^[ +]*[0-9]{6,}', x[21:]))]
+        a = ' '.join(parts)
+        if where == 'root':
+            rootattrs.append(a)
+        elif where == 'top':
+            top.append('<%s %s>%s</%s>' % (el, a, content, el))
+        elif where == 'sort':
+            sorts.append('<%s %s/>' % (el, a))
+        elif where == 'call':
+            calls.append('<%s %s/>' % (el, a))
+        elif el == 'lre':
+            body.append('<lit %s>%s</lit>' % (a, content))
+        else:
+            body.append('<%s %s>%s</%s>' % (el, a, content, el))
+    decl = ''.join('<xsl:param name="%s"/>' % p for p in sorted(params))
+    root = ('<xsl:stylesheet xmlns:xsl="http://www.w3.org/1999/XSL/Transform" xmlns:x="urn:x" xmlns:xalan="http://xml.apache.org/xalan" %s>' % ' '.join(rootattrs)) if rootattrs else \
+           '<xsl:stylesheet version="1.0" xmlns:xsl="http://www.w3.org/1999/XSL/Transform" xmlns:x="urn:x" xmlns:xalan="http://xml.apache.org/xalan">'
+    sheet = (root + decl + ''.join(top) + '<xsl:template match="/"><out><xsl:for-each select="//*">' + ''.join(sorts) + '<i>' + ''.join(body) +
+             '<xsl:call-template name="r">' + ''.join(calls) + '</xsl:call-template><xsl:value-of select="format-number(1234.5, \'#,##0.0\')"/></i></xsl:for-each></out></xsl:template>'
+             '<xsl:template name="r"><xsl:param name="n"/>r</xsl:template></xsl:stylesheet>')
+    return sheet, params, '; '.join(desc)
+
+
 def check_reply(res, rp, what, payload, key_hint):
     """monitor (a): success, or failure with a message"""
     if 'escaped' in rp and rp['escaped'].startswith(b'SAXParseException') and payload.get('src') in ('xerceswrap', 'stwrap', 'builder'):
@@ -140,7 +242,7 @@ def case(ctx, idx, res):
         ctx.cache['good'] = d.call(cmd='transform', t=t, src='stream', sty='stream', tgt='stream', xml=GOOD_XML, xsl=GOOD_XSL).get('out')
         ctx.cache['since'] = 0
     kind = r.choice(['mutated-stylesheet', 'mutated-stylesheet', 'mutated-document', 'hostile-xpath-in-stylesheet', 'hostile-xpath-in-stylesheet', 'xpath-entry', 'xpath-entry', 'param', 'deep-document', 'deep-stylesheet',
-                     'capi', 'garbage', 'serializer-garbage', 'hostile-uri', 'hostile-uri'])
+                     'capi', 'garbage', 'serializer-garbage', 'hostile-uri', 'hostile-uri', 'hostile-attribute', 'hostile-attribute', 'hostile-attribute', 'integer-conversion'])
     xml, info = gen_xml.gen_doc(r, size=r.choice([5, 12, 25]))
     g = gen_xslt.SGen(r, info, avoid=ctx.findings_avoid, max_templates=r.choice([2, 5, 8]), body_depth=r.choice([2, 3]))
     xsl = g.stylesheet()
@@ -156,7 +258,7 @@ def case(ctx, idx, res):
         elif kind == 'hostile-xpath-in-stylesheet':
             e = hostile_xpath(r).replace('&', '&amp;').replace('<', '&lt;').replace('"', '&quot;')
             where = r.choice(['<xsl:value-of select="%s"/>', '<xsl:for-each select="%s">x</xsl:for-each>', '<xsl:if test="%s">y</xsl:if>', '<a b="{%s}"/>', '<xsl:copy-of select="%s"/>',
-                              '<xsl:number value="%s" format="1"/>', '<xsl:number value="%s" format="a" grouping-separator="," grouping-size="3"/>', '<xsl:apply-templates select="%s"/>',
+                              '<xsl:number value="%s" format="1"/>', '<xsl:number value="%s" format="a" grouping-separator="," grouping-size="3"/>', '<xsl:apply-templates select="%s" mode="down"/>',
                               '<xsl:for-each select="//*"><xsl:sort select="%s" data-type="number"/>z</xsl:for-each>', '<xsl:variable name="v" select="%s"/><xsl:value-of select="$v"/>',
                               '<xsl:element name="{%s}"/>', '<xsl:attribute name="{%s}">v</xsl:attribute>', '<xsl:processing-instruction name="{%s}">v</xsl:processing-instruction>',
                               '<xsl:message><xsl:value-of select="%s"/></xsl:message>'])
@@ -184,8 +286,46 @@ def case(ctx, idx, res):
             res.count('uri_cases')
             check_reply(res, rp, 'transformation resolving the reference %r against %r (%s)' % (u[:120], base, use), {'kind': kind, 'stylesheet': xsl, 'document': xml, 'base': base}, 'uri')
             kind_done = True
+        elif kind == 'hostile-attribute':
+            xsl, hp, what = hostile_attribute_sheet(r)
+            for pn, pv in hp.items():
+                d.call(cmd='param', t=t, kind='xstr', name=pn, value=pv.encode('utf-8', 'surrogatepass'))
+            sty = r.choice(['stream', 'compiled'])
+            rp = d.call(cmd='transform', t=t, src='stream', sty=sty, tgt='stream', xml=GOOD_XML, xsl=xsl.encode('utf-8', 'surrogatepass'))
+            res.evals += 1
+            res.count('attribute_cases')
+            check_reply(res, rp, 'transformation with %s' % what, {'kind': kind, 'stylesheet': xsl, 'document': GOOD_XML, 'params': hp, 'sty': sty}, 'attribute')
+            if hp:
+                d.call(cmd='param', t=t, kind='clear', name='', value='')
+        elif kind == 'integer-conversion':
+            # the string -> int / long / unsigned long conversions behind xalan:indent-amount, grouping-size and friends, called directly:
+            # values around every power of two and ten that matters, signs, padding, and damaged forms
+            items = []
+            for _ in range(40):
+                base = r.choice([2 ** 31, 2 ** 32, 2 ** 63, 2 ** 64, 10 ** 9, 10 ** 10, 10 ** 18, 10 ** 19, 10 ** 20, 214748364, 922337203685477580, 1844674407370955161, 0, 7, 10 ** 40]) + r.choice([-2, -1, 0, 1, 2, 5, 9])
+                v = str(abs(base))
+                v = r.choice(['', '-', ' -', '\t', '0', '000', '+']) + v + r.choice(['', '', ' ', '.0', '.', 'e1', 'x', '\n', ' 1', '0', '9'])
+                items.append(r.choice(V_NUM) if r.random() < 0.2 else v)
+            for op in ('s2i', 's2l', 's2ul'):
+                rp = d.call(cmd='num', op=op, **{'in': ''.join(i.encode('utf-8').hex() + '\n' for i in items)})
+                res.evals += 1
+                got = rp.get('out', b'').decode().split('\n')[:len(items)]
+                if len(got) != len(items) or not all(re.match(r'^-?[0-9]+$', g) for g in got):
+                    res.viol('no-status|integer-conversion', '%s: %d strings in, reply %r' % (op, len(items), rp), {'kind': kind, 'op': op, 'items': items})
+                res.count('integer_conversions', len(items))
         elif kind == 'deep-document':
             xml = deep_doc(r)
+            if r.random() < 0.7:
+                # mostly with stylesheets whose work is linear in the document: a generated one with keys over every string value and
+                # // inside predicates is legitimately cubic on 9 000 siblings, and only produces time-outs
+                xsl = (HEAD % '') + r.choice([
+                    '<xsl:template match="@*|node()"><xsl:copy><xsl:apply-templates select="@*|node()"/></xsl:copy></xsl:template>',
+                    '<xsl:template match="/"><o><xsl:value-of select="count(//node()) + count(//@*)"/><xsl:value-of select="string-length(.)"/></o></xsl:template>',
+                    '<xsl:template match="/"><o><xsl:copy-of select="."/></o></xsl:template>',
+                    '<xsl:template match="*"><e n="{count(ancestor::*)}"><xsl:apply-templates select="*[1]|@*[1]"/></e></xsl:template><xsl:template match="@*"><xsl:value-of select="name()"/></xsl:template>',
+                    '<xsl:template match="/"><o><xsl:for-each select="(//*)[last()]"><xsl:value-of select="count(ancestor-or-self::*)"/><xsl:number level="multiple"/></xsl:for-each></o></xsl:template>',
+                    '<xsl:template match="/"><o><xsl:for-each select="//*[not(*)][1]/ancestor::*"><xsl:sort select="count(ancestor::*)" data-type="number" order="descending"/><i/></xsl:for-each></o></xsl:template>',
+                ]) + '</xsl:stylesheet>'
         elif kind == 'deep-stylesheet':
             xsl = deep_sheet(r)
         elif kind == 'garbage':
@@ -241,7 +381,7 @@ def case(ctx, idx, res):
                         indent=r.choice(['0', '1']), script=script)
             res.evals += 1
             res.count('serializer_calls')
-        elif kind == 'hostile-uri':
+        elif kind in ('hostile-uri', 'hostile-attribute', 'integer-conversion'):
             pass
         else:
             src = r.choice(['stream', 'stream', 'parsed', 'parsedx', 'builder', 'xerceswrap'])
@@ -342,7 +482,7 @@ def main():
     if chk.tier == 'thorough' or os.environ.get('VERIF_FUZZ'):
         chk.ensure('fuzz', 'xvfuzz')
         chk.run_cases('c03', 'fuzz_case', range(16))
-    chk.finish(min_nontrivial=8, required_stats=('failures_reported', 'successes', 'still_usable', 'xpath_calls', 'serializer_calls'))
+    chk.finish(min_nontrivial=8, required_stats=('failures_reported', 'successes', 'still_usable', 'xpath_calls', 'serializer_calls', 'attribute_cases', 'integer_conversions'))
 
 
 if __name__ == '__main__':
